@@ -506,9 +506,11 @@ fn header_staging<const C1: usize, const MID: usize, const N2: usize>() {
     }
     f[0] = 0x5D; // lc=3 lp=0 pb=2 (concrete properties byte)
     let size = t.u64();
+    let ml = t.usize();
+    let ml_some = t.bool();
     let o = Options {
         unpacked_size: crate::decompress::UnpackedSize::UseProvided(Some(size)),
-        memlimit: None,
+        memlimit: if ml_some { Some(ml) } else { None },
         allow_incomplete: false,
     };
     let mut s = Stream::new_with_options(&o, CountSink::new());
@@ -552,6 +554,7 @@ fn header_staging<const C1: usize, const MID: usize, const N2: usize>() {
                 if d < 0x1000 { 0x1000 } else { d }
             }, "staging: dictionary size from header bytes 1..5, at least 4096");
             vassert!(crate::decode::lzma::verif_h::unpacked_size_of(&rs.decoder) == Some(size), "staging: the provided size is in effect");
+            vassert!(crate::decode::lzbuffer::verif_h::circ_memlimit(&rs.output) == if ml_some { ml } else { usize::MAX }, "staging: the memory limit reaches the window also when the header arrives in pieces");
         }
         None => {
             vassert!(false, "staging: data state entered once header + preamble are available");
@@ -608,7 +611,7 @@ pub fn stream_header_staging_4_6() {
     header_staging::<4, 0, 6>()
 }
 
-//@ harness props=C05,C07 tier=quick unwind=10 unwindset=default_read_exact:4,header_staging:34 mem_gb=6 timeout=600 native=no opt_covers=leftover_nonzero
+//@ harness props=C05,C10,C13,C15,C07 tier=quick unwind=10 unwindset=default_read_exact:4,header_staging:34 mem_gb=6 timeout=600 native=no opt_covers=leftover_nonzero
 //@ bound: Stream(UseProvided(symbolic)): write 5 bytes then 5 bytes of a symbolic stream (properties byte 0x5D): header staging, leftover handling
 #[cfg_attr(kani, kani::proof)]
 #[cfg_attr(kani, kani::stub(std::fmt::format, crate::verif_common::stub_format))]
@@ -618,7 +621,7 @@ pub fn stream_header_staging_5_5() {
     header_staging::<5, 0, 5>()
 }
 
-//@ harness props=C05,C07 tier=quick unwind=10 unwindset=default_read_exact:4,header_staging:34 mem_gb=6 timeout=600 native=no opt_covers=leftover_nonzero
+//@ harness props=C05,C10,C13,C15,C07 tier=quick unwind=10 unwindset=default_read_exact:4,header_staging:34 mem_gb=6 timeout=600 native=no opt_covers=leftover_nonzero
 //@ bound: Stream(UseProvided(symbolic)): write 9 bytes then 1 bytes of a symbolic stream (properties byte 0x5D): header staging, leftover handling
 #[cfg_attr(kani, kani::proof)]
 #[cfg_attr(kani, kani::stub(std::fmt::format, crate::verif_common::stub_format))]
@@ -628,7 +631,7 @@ pub fn stream_header_staging_9_1() {
     header_staging::<9, 0, 1>()
 }
 
-//@ harness props=C05,C07 tier=quick unwind=10 unwindset=default_read_exact:4,header_staging:34 mem_gb=6 timeout=600 native=no
+//@ harness props=C05,C10,C13,C15,C07 tier=quick unwind=10 unwindset=default_read_exact:4,header_staging:34 mem_gb=6 timeout=600 native=no
 //@ bound: Stream(UseProvided(symbolic)): write 9 bytes then 9 bytes of a symbolic stream (properties byte 0x5D): header staging, leftover handling
 #[cfg_attr(kani, kani::proof)]
 #[cfg_attr(kani, kani::stub(std::fmt::format, crate::verif_common::stub_format))]
@@ -638,7 +641,7 @@ pub fn stream_header_staging_9_9() {
     header_staging::<9, 0, 9>()
 }
 
-//@ harness props=C05,C07 tier=quick unwind=10 unwindset=default_read_exact:4,header_staging:34 mem_gb=6 timeout=600 native=no
+//@ harness props=C05,C10,C13,C15,C07 tier=quick unwind=10 unwindset=default_read_exact:4,header_staging:34 mem_gb=6 timeout=600 native=no
 //@ bound: Stream(UseProvided(symbolic)): write 6 bytes then 12 bytes of a symbolic stream (properties byte 0x5D): header staging, leftover handling
 #[cfg_attr(kani, kani::proof)]
 #[cfg_attr(kani, kani::stub(std::fmt::format, crate::verif_common::stub_format))]
@@ -658,7 +661,7 @@ pub fn stream_header_staging_2_8() {
     header_staging::<2, 0, 8>()
 }
 
-//@ harness props=C05,C07 tier=quick unwind=10 unwindset=default_read_exact:4,header_staging:34 mem_gb=6 timeout=600 native=no
+//@ harness props=C05,C10,C13,C15,C07 tier=quick unwind=10 unwindset=default_read_exact:4,header_staging:34 mem_gb=6 timeout=600 native=no
 //@ bound: Stream(UseProvided(symbolic)): three pieces 5 + 2 + 6 bytes (two cuts inside header + preamble): staging accumulates, leftover handling
 #[cfg_attr(kani, kani::proof)]
 #[cfg_attr(kani, kani::stub(std::fmt::format, crate::verif_common::stub_format))]
@@ -668,7 +671,7 @@ pub fn stream_header_staging3_5_2_6() {
     header_staging::<5, 2, 6>()
 }
 
-//@ harness props=C05,C07 tier=quick unwind=10 unwindset=default_read_exact:4,header_staging:34 mem_gb=6 timeout=600 native=no
+//@ harness props=C05,C10,C13,C15,C07 tier=quick unwind=10 unwindset=default_read_exact:4,header_staging:34 mem_gb=6 timeout=600 native=no
 //@ bound: Stream(UseProvided(symbolic)): three pieces 6 + 3 + 9 bytes (two cuts inside header + preamble): staging accumulates, leftover handling
 #[cfg_attr(kani, kani::proof)]
 #[cfg_attr(kani, kani::stub(std::fmt::format, crate::verif_common::stub_format))]
@@ -678,7 +681,7 @@ pub fn stream_header_staging3_6_3_9() {
     header_staging::<6, 3, 9>()
 }
 
-//@ harness props=C05,C07 tier=quick unwind=10 unwindset=default_read_exact:4,header_staging:34 mem_gb=6 timeout=600 native=no opt_covers=leftover_nonzero
+//@ harness props=C05,C10,C13,C15,C07 tier=quick unwind=10 unwindset=default_read_exact:4,header_staging:34 mem_gb=6 timeout=600 native=no opt_covers=leftover_nonzero
 //@ bound: Stream(UseProvided(symbolic)): three pieces 5 + 1 + 4 bytes (two cuts inside header + preamble): staging accumulates, leftover handling
 #[cfg_attr(kani, kani::proof)]
 #[cfg_attr(kani, kani::stub(std::fmt::format, crate::verif_common::stub_format))]
